@@ -275,6 +275,17 @@ def r12_7(ctx) -> None:
     eng = ctx.eng
     P = eng.prog
     d = P.func("rfc7517.pem:dump_pem_key")
+    from .common import dump_pem_verdicts
+    folded = dump_pem_verdicts(eng)
+    if folded is not None:
+        bad = [t for c, t in folded if c == "branch"]
+        ctx.check(not bad, "R12.7", d, d.node, "dump_pem_key (folded on a probe grid)", "the non-private branch of dump_pem_key is not restricted to public_bytes(SubjectPublicKeyInfo): " + "; ".join(bad[:2]),
+                  "private_bytes only when `private` is truthy; else public_bytes(SubjectPublicKeyInfo)", construct="dump_pem_key branches")
+        ab = P.cls("rfc7517.pem:CryptographyBinding").methods.get("as_bytes")
+        if ab is None:
+            raise AnalysisError("CryptographyBinding.as_bytes vanished")
+        _as_bytes_paths(ctx, ab, d)
+        return
     cfg = cfg_of(d)
     tests = [t for t in cfg.nodes if t.kind == "test" and norm(t.ast) == "private"]
     ok = False
